@@ -113,6 +113,14 @@ class _CrashingEpochStop(ml.EpochStop):
         return super().stop(model, current_epoch, train_loss, val_loss, epoch_time)
 
 
+def _build(cfg, key):
+    m = zoo.build_model(cfg, key)
+    ga = cfg.get("group_average")
+    if ga:
+        m = models.GroupAverage(m, zoo.banks(cfg["D"])["ops"], always_average=ga["always"], inference=True)
+    return m
+
+
 def finite(mi) -> bool:
     return all(bool(jnp.all(jnp.isfinite(v))) for v in mi.values())
 
@@ -254,6 +262,13 @@ def gen_plan(rng, profile: dict, seed: int) -> dict:
         cfg = zoo.gen_cfg(rng, classes=classes, equivariant=True, dims=tuple(profile.get("dims", (2, 2, 2, 2, 3))), allow_unreachable=False)
         if cfg["D"] == 2 and cfg["cls"] != "UNet" and cfg["cls"] != "DilResNet":
             cfg["spatial"] = rng.choice([[4, 4], [3, 3], [4, 4]])
+        if rng.random() < 0.1:
+            # the other way the library makes a model equivariant: a conventional network inside the group-averaging
+            # wrapper, whose symmetry rests on python flags of the wrapper (always_average / inference), not on weights
+            cfg = zoo.gen_cfg(rng, classes=["ResNet", "ConvBlock"], equivariant=False, dims=(2,))
+            cfg["spatial"] = rng.choice([[4, 4], [3, 3]])
+            cfg["torus"] = False
+            cfg["group_average"] = {"always": rng.random() < 0.4}
         segs = []
         ndev0 = rng.choice([1, 1, 2])
         B0 = ndev0 * rng.choice([1, 2])
@@ -347,7 +362,7 @@ def _exec_train(plan, ctx):
     D = cfg["D"]
     site0 = f"{cfg['cls']}/bias={cfg['use_bias']}/norm={cfg['use_group_norm']}/act={cfg['activation']}"
     ops = zoo.banks(D, zoo.needs_big(cfg))["ops"]
-    model = zoo.build_model(cfg, jax.random.PRNGKey(plan["model_key"]))
+    model = _build(cfg, jax.random.PRNGKey(plan["model_key"]))
     init_model = model
     bank0 = bank_leaves(model)
     amp = float(plan.get("probe_amplitude", 1.0))
@@ -443,7 +458,7 @@ def _exec_train(plan, ctx):
             world.disk.crash_at_write = None
             kinds.append("crash")
             outcome = world.disk.crash(make_rng((seg.get("crash") or {}).get("seed", seg["restart_key"])))
-            fresh = zoo.build_model(cfg, jax.random.PRNGKey(seg["restart_key"]))
+            fresh = _build(cfg, jax.random.PRNGKey(seg["restart_key"]))
             world.disk.crash_at_write = None
             rr = make_rng(seg["restart_key"])
             if rr.random() < 0.4:  # short reads while restoring: transparent for the unchanged buffered reader
